@@ -8,7 +8,7 @@ use crate::rng::Rng;
 use crate::sddstream::{exec_sdd, gen_vtree, sdd_canon, VT};
 use rsdd::builder::bdd::{BddBuilder, RobddBuilder};
 use rsdd::builder::cache::AllIteTable;
-use rsdd::builder::decision_nnf::{DecisionNNFBuilder, StandardDecisionNNFBuilder};
+use rsdd::builder::decision_nnf::{DecisionNNFBuilder, SemanticDecisionNNFBuilder, StandardDecisionNNFBuilder};
 use rsdd::builder::sdd::{CompressionSddBuilder, SddBuilder, SemanticSddBuilder};
 use rsdd::builder::BottomUpBuilder;
 use rsdd::constants::primes;
@@ -116,11 +116,14 @@ fn hash_report<const P: u128>(rng: &mut Rng, n: usize, prog: &Program, order2: &
 }
 
 fn td_report<const P: u128>(rng: &mut Rng, maxvars: usize) -> (String, String) {
-    let raw = gen_cnf(rng, maxvars, 2 * maxvars, false);
+    // the same CNF families as the `td` stream (parity constraints and guarded multiplexers make
+    // the hash-identified store answer from its table)
+    let (raw0, _) = crate::tdstream::gen_td_raw(rng, maxvars);
+    let raw: RawCnf = raw0.into_iter().filter(|c| !c.is_empty()).collect();
     let cnf = to_cnf(&raw);
     let n = std::cmp::max(1, cnf.num_vars());
     let o1 = rng.perm(n);
-    let o2 = rng.perm(n);
+    let o2 = if rng.chance(1, 3) { (0..n).collect() } else { rng.perm(n) };
     let head = format!("hash kind=td n={} cnf={} o1={} o2={}", n, print_cnf(&cnf), csv(&o1), csv(&o2));
     let r = guarded(|| {
         let map = create_semantic_hash_map::<P>(n);
@@ -134,12 +137,23 @@ fn td_report<const P: u128>(rng: &mut Rng, maxvars: usize) -> (String, String) {
         let d = b.compile_cnf(&cnf);
         let t = StandardDecisionNNFBuilder::new(mk_order(&o2));
         let td = t.compile_cnf_topdown(&cnf);
+        // the store that identifies nodes by semantic hash, same order: its result, the result's
+        // truth table, and a second compilation of the negated... (same CNF) on the same builder
+        let st = SemanticDecisionNNFBuilder::<P>::new(mk_order(&o2));
+        let sd = st.compile_cnf_topdown(&cnf);
+        let sd2 = st.compile_cnf_topdown(&cnf);
+        let tt = |p: BddPtr| -> String {
+            (0..(1usize << n)).map(|a| { let inst: Vec<bool> = (0..n).map(|x| (a >> x) & 1 == 1).collect(); if p.evaluate(&inst) { '1' } else { '0' } }).collect()
+        };
         format!(
-            "P={} w={} hb={} ht={}",
+            "P={} w={} hb={} ht={} hsem={} stt={} stt2={}",
             P,
             ws.join(","),
             d.semantic_hash(&map).value(),
-            td.semantic_hash(&map).value()
+            td.semantic_hash(&map).value(),
+            sd.semantic_hash(&map).value(),
+            tt(sd),
+            tt(sd2)
         )
     });
     (head, r.unwrap_or_else(|e| e))
